@@ -1,0 +1,23 @@
+//go:build verif
+
+package ipfslog
+
+import "sync"
+
+// VerifHook is set by the simulation harness; nil fields are no-ops.
+var VerifHook struct {
+	BeforeLock func(mu *sync.RWMutex, write bool, site string)
+	Yield      func(site string)
+}
+
+func verifBeforeLock(l *IPFSLog, write bool, site string) {
+	if f := VerifHook.BeforeLock; f != nil {
+		f(&l.lock, write, site)
+	}
+}
+
+func verifYield(site string) {
+	if f := VerifHook.Yield; f != nil {
+		f(site)
+	}
+}
